@@ -73,6 +73,8 @@ def _case(draw, tier):
         "train_fdr": draw(st.sampled_from([None, None, 0.31, 0.2113, 0.1279])),  # None: same as the evaluation FDR
         "twin": draw(st.booleans()),
         "raw_labels": draw(st.booleans()),
+        # one noise feature becomes a two-valued indicator that marks nearly all correct targets: the best single feature
+        "flag": draw(st.sampled_from([False, False, True])),
         "cap_kind": "none", "cap_frac": 50, "shared_prefix": False, "row_group": None,
         "predict_chunk": draw(st.sampled_from([None, None, 64])), "readall_chunk": None,
     }
@@ -170,6 +172,24 @@ def _check_cli_direction(case):
 def extra(tier, seed, shard, nshards, stats):
     from core import Violation
 
+    if shard == 1:
+        # one large collection (training splits of > 20 000 PSMs) with an estimator that trains on every fold but generalises
+        # worse than the best feature: the safety net must still fire
+        big = {"seed": seed * 7 + 3, "files": [{"mults_n": 36000}], "key": 2, "folds": 3, "workers": 3, "rng": seed, "kind": "memoweak",
+               "override": False, "sign": 1.0, "label_enc": "pm1", "fmt": "tsv", "n_noise": 2, "fdr": 0.1279, "sep": 3.0, "train_fdr": None,
+               "twin": False, "raw_labels": False, "flag": False, "cap_kind": "none", "cap_frac": 50, "shared_prefix": False,
+               "row_group": None, "predict_chunk": None, "readall_chunk": None}
+        stats.evaluations += 1
+        try:
+            obs = check(big)
+            obs["classes"] = list(obs.get("classes", [])) + ["training-split>20000-rows"]
+            stats.observe(big, obs)
+        except Rejected as rej:
+            stats.rejected += 1
+            stats.rejected_reasons[str(rej)[:80]] += 1
+        except Violation as v:
+            stats.failure = {"case": big, "signature": v.signature, "message": v.message}
+            return
     reps = 1 if tier == "quick" else 6
     for r in range(reps):
         case = {"kind": "cli", "seed": seed * 100003 + shard * 101 + r, "n": 300 + 40 * ((shard + r) % 5), "lowbetter": (shard + r) % 3 != 0}
@@ -189,6 +209,8 @@ def extra(tier, seed, shard, nshards, stats):
 def check(case):
     if case.get("kind") == "cli":
         return _check_cli_direction(case)
+    if any("mults_n" in f for f in case["files"]):
+        case = {**case, "files": [{"mults": [1] * f["mults_n"]} if "mults_n" in f else f for f in case["files"]]}
     import mokapot
 
     config_inject.install_pep_stub()
@@ -266,6 +288,10 @@ def check(case):
             classes.append("train_fdr!=test_fdr")
         if case["twin"]:
             classes.append("twin-features")
+        if case.get("flag"):
+            classes.append("two-valued-indicator-feature")
+            if F_args is not None and F_args[1] == "f1":
+                classes.append("best-feature-is-two-valued")
         if case["raw_labels"]:
             classes.append("raw-labels-in-memory")
         # ---- confidence honours the returned direction ------------------------------------
